@@ -99,15 +99,26 @@ class Prop:
         "a bare control class returned (not raised) by the predicate is outside the quantifier",
     ]
     manifest = dict(
-        text=("Machine-checked theorems (Coq 8.16, no axioms), for all forests with unique node identities and all verdict assignments: the model of "
-              "the repaired in-place filter equals the recursive filter spec F; the node set of F is exactly the set characterisation of the "
-              "statement (accepted and visited, their ancestors, everything below a select answer; visited = no ancestor answered skip/select, "
-              "before the first stop), without duplicates, as an order- and parent-preserving sub-forest; the model of the copying form equals "
-              "F plus exactly the D24 leaves (known finding: the full statement is kept and refuted by a witness).  Tied to /repo on every run by "
-              "a correspondence check on all forests <= 3 (quick) / 4 (thorough) nodes x all 6^n verdict assignments x all starts plus random larger "
-              "trees, and by an independent Python oracle of the set characterisation."),
-        note=("Trusted: Coq kernel + vm_compute; hand-written model theories/Forest/Filter.v (tied by the correspondence only; the target tree "
-              "of the copying form is modelled by its open right spine); harness generators/observation; allocation-index identities. "
+        text=("Machine-checked theorems (Coq 8.16, no axioms; unbounded induction over forests), for all forests with unique node identities and "
+              "all verdict assignments: the model of the (repaired: D05, D25) in-place filter equals the recursive filter spec F, also for a "
+              "branch start; the node set of F is exactly the independent set characterisation of the statement (accepted and visited, their "
+              "ancestors, everything below a select answer; visited = every proper ancestor answered True/False, before the first stop in "
+              "pre-order -- both ingredients also characterised declaratively), each node once, as an order-preserving sub-forest in which kept "
+              "nodes keep their parent (both directions); clause by clause: accepted kept, select keeps the branch, skip/stop dropped, nothing "
+              "below a skip answer; a stop answer is the last call, everything kept precedes it in pre-order and everything accepted before "
+              "it is kept; the predicate is called exactly on the reached nodes up to the stop (both scans); the model of the copying form "
+              "(parent stack with lazy materialisation) equals F plus exactly the D24 leaves modulo node identity, its nodes are new with "
+              "consecutive allocation indices (each once); in place = copying modulo those leaves, also when the predicate is given by what "
+              "it does (returned or raised signals, StopIteration; the two chains of tests classify equally).  D24 is a known finding: "
+              "the full statement for the copying form is kept and refuted on the suite's own fixture and predicate, and holds outside the "
+              "region.  The chains of tests and the loop frames of both scans are regenerated from the source text on every run and "
+              "proof obligations connect them to the model.  Tied to /repo on every run by a correspondence check (vm_compute) on all "
+              "forests <= 3 (quick) / 4 (thorough) nodes x all 6^n verdict assignments x all starts x returned/raised flavours plus sampled "
+              "and random larger trees with clones, and by an independent Python oracle of the set characterisation on pointer snapshots."),
+        note=("Trusted: Coq kernel + vm_compute; hand-written model theories/Forest/Filter.v (tied by the correspondence and the source "
+              "obligations of FilterSource.v only; the target tree of the copying form is modelled by its open right spine); harness "
+              "generators/observation/oracle; allocation-index identities; gen_facts.py. In the model the source of a copying form is "
+              "unchanged by construction; that the implementation leaves it unchanged is checked by the oracle on every case. "
               "Print Assumptions: closed under the global context for all theorems."),
         technique="Coq proof about an executable Gallina model + differential correspondence check (vm_compute) + Python oracle",
         design_ref="DESIGN.md section 6 (C08)",
